@@ -233,6 +233,19 @@ class invisible_barline_dropped:
         return lines_of(kp.dumps(doc)) == ['**kern', '*clefG2', '=', '4c', '=-', '4d', '==', '*-']
 
 
+@contract(None, props=['C03'], bounded='one recorded score (known finding of C03)')
+class editorial_mark_loses_its_at_sign:
+    """Known finding (C03): the grammar reads `y@` / `yy@` as ONE signifier (editorialIntervention: y y* @?), and `@` is also the
+    separator of the extended encodings; the plain encodings are produced by deleting every `@`, so the note `4dy@` is exported as
+    `4dy` -- a signifier loses a character (the extended encoding keeps it: `4@d·y@`)."""
+    def inputs(g):
+        return {'text': g.choice('text', ['**kern\n*clefG2\n4dy@\n*-\n'])}
+
+    def post_signifier_kept(text):
+        doc, errs = kp.loads(text)
+        return errs == [] and lines_of(kp.dumps(doc)) == ['**kern', '*clefG2', '4dy@', '*-']
+
+
 @contract(None, props=['C01'], bounded='one recorded score (known finding of C01)')
 class extended_round_trip_combining_signifiers:
     """Known finding (C01): two signifiers that the extended encoding keeps apart can merge into one when the separators are removed
